@@ -439,6 +439,17 @@ func (bp *BytePred) exec(info *types.Info, list []ast.Stmt, env bpEnv, depth int
 				return first, true, true
 			}
 			v, ok := bp.eval(info, s.Results[0], env, depth+1)
+			if ok && !v.IsS {
+				// the single result is recorded like a result list of one
+				x := v.I
+				if v.Is {
+					x = 0
+					if v.B {
+						x = 1
+					}
+				}
+				bp.Results = append(bp.Results[:0], x)
+			}
 			return v, true, ok
 		case *ast.IncDecStmt:
 			obj := ObjOf(info, s.X)
@@ -483,6 +494,35 @@ func (bp *BytePred) exec(info *types.Info, list []ast.Stmt, env bpEnv, depth int
 		case *ast.RangeStmt:
 			// for i := range <array>: the index runs over the array's length
 			tv := info.Types[s.X]
+			// for i, c := range <bound byte string or a re-slice of one>: index and byte value
+			if bs, isBound := bp.boundBytes(info, s.X, env, depth); isBound {
+				var kobj, vobj types.Object
+				if s.Key != nil {
+					if id, isID := s.Key.(*ast.Ident); !isID || id.Name != "_" {
+						kobj = ObjOf(info, s.Key)
+					}
+				}
+				if s.Value != nil {
+					if id, isID := s.Value.(*ast.Ident); !isID || id.Name != "_" {
+						vobj = ObjOf(info, s.Value)
+					}
+				}
+				if _, isStr := tv.Type.Underlying().(*types.Basic); isStr {
+					return bpVal{}, false, false // ranging over a string yields runes: not modelled
+				}
+				for i := range bs {
+					if kobj != nil {
+						env[kobj] = bpVal{I: int64(i)}
+					}
+					if vobj != nil {
+						env[vobj] = bpVal{I: int64(bs[i])}
+					}
+					if v, done, ok := bp.exec(info, s.Body.List, env, depth+1); !ok || done {
+						return v, done, ok
+					}
+				}
+				continue
+			}
 			arr, isArr := tv.Type.Underlying().(*types.Array)
 			if !isArr || s.Value != nil || s.Key == nil {
 				return bpVal{}, false, false
@@ -687,13 +727,67 @@ func (bp *BytePred) exec(info *types.Info, list []ast.Stmt, env bpEnv, depth int
 			if v, done, ok := bp.exec(info, s.List, env, depth+1); !ok || done {
 				return v, done, ok
 			}
-		case *ast.DeclStmt, *ast.EmptyStmt:
-			// declarations without effect on bound variables
+		case *ast.DeclStmt:
+			// `var x T` without a value: an integer or boolean variable starts at its zero value
+			if gd, ok := s.Decl.(*ast.GenDecl); ok && gd.Tok == token.VAR {
+				for _, sp := range gd.Specs {
+					vs, ok := sp.(*ast.ValueSpec)
+					if !ok || len(vs.Values) != 0 {
+						continue
+					}
+					for _, nm := range vs.Names {
+						if o := info.Defs[nm]; o != nil {
+							if b, isBasic := o.Type().Underlying().(*types.Basic); isBasic {
+								if b.Info()&types.IsInteger != 0 {
+									env[o] = bpVal{I: 0}
+								} else if b.Info()&types.IsBoolean != 0 {
+									env[o] = bpVal{Is: true, B: false}
+								}
+							}
+						}
+					}
+				}
+			}
+		case *ast.EmptyStmt:
 		default:
 			return bpVal{}, false, false
 		}
 	}
 	return bpVal{}, false, true
+}
+
+// boundBytes resolves an expression that denotes a bound byte string or a re-slice of one with evaluable bounds.
+func (bp *BytePred) boundBytes(info *types.Info, e ast.Expr, env map[types.Object]bpVal, depth int) ([]byte, bool) {
+	switch x := Unparen(e).(type) {
+	case *ast.Ident:
+		bs, ok := bp.Strings[ObjOf(info, x)]
+		return bs, ok
+	case *ast.SliceExpr:
+		bs, ok := bp.boundBytes(info, x.X, env, depth)
+		if !ok || x.Max != nil {
+			return nil, false
+		}
+		lo, hi := int64(0), int64(len(bs))
+		if x.Low != nil {
+			v, ok := bp.eval(info, x.Low, env, depth+1)
+			if !ok || v.Is || v.IsS {
+				return nil, false
+			}
+			lo = v.I
+		}
+		if x.High != nil {
+			v, ok := bp.eval(info, x.High, env, depth+1)
+			if !ok || v.Is || v.IsS {
+				return nil, false
+			}
+			hi = v.I
+		}
+		if lo < 0 || hi > int64(len(bs)) || lo > hi {
+			return nil, false
+		}
+		return bs[lo:hi], true
+	}
+	return nil, false
 }
 
 // ExecList interprets a statement list under env. done reports that a return was reached (ret is its value); ok is
